@@ -42,7 +42,7 @@ func (*Enum) Build(gen Generator, ctx *MethodContext, sourceID *xtype.JenID, sou
 		return nil, nil, err
 	}
 
-	sourceTargetMapping := map[interface{}]enumMapping{}
+	sourceTargetMapping := map[string]enumMapping{}
 	for _, sourceName := range sourceEnum.SortedMembers() {
 		delete(definedKeys, sourceName)
 
@@ -68,7 +68,9 @@ func (*Enum) Build(gen Generator, ctx *MethodContext, sourceID *xtype.JenID, sou
 		}
 
 		sourceValue := sourceEnum.Members[sourceName]
-		if previous, ok := sourceTargetMapping[sourceValue]; ok {
+		// float and big integer constants are pointers (*big.Rat, ...): compare them by value
+		sourceKey := fmt.Sprint(sourceValue)
+		if previous, ok := sourceTargetMapping[sourceKey]; ok {
 			if enumTargetMismatches(previous, targetEnum, targetName) {
 				return nil, nil, enumTargetMismatchError(targetEnum, sourceName, targetName, previous, sourceValue).Lift(&Path{
 					SourceType: fmtEnumValue(sourceEnum, sourceName),
@@ -83,7 +85,7 @@ func (*Enum) Build(gen Generator, ctx *MethodContext, sourceID *xtype.JenID, sou
 					fmtEnumValue(sourceEnum, previous.Source), fmtEnumValue(targetEnum, previous.Target))))
 			}
 		} else {
-			sourceTargetMapping[sourceValue] = enumMapping{Source: sourceName, Target: targetName}
+			sourceTargetMapping[sourceKey] = enumMapping{Source: sourceName, Target: targetName}
 			cases = append(cases, jen.Case(sourceQual).Add(body))
 		}
 	}
